@@ -7,6 +7,7 @@ from ..astutil import attr_chain, call_method, short, src, enum_member, kwarg, a
 from ..linear import Normaliser, Sym
 from ..model import walk_local, AnalysisError
 from ..report import Ctx
+from ..absint import AbsInt
 from ..engines import keykind, queue
 from ..engines.effects import Effects
 from ..engines.typecase import TypeCase, events_matching
@@ -27,7 +28,7 @@ def check(ctx: Ctx) -> None:
 
 
 def _check(ctx: Ctx) -> None:
-    split_rules(ctx, {"KEY", "PURE", "Q1", "CUT", "RESTRIKE", "COUNT", "PLACE"}, explain=True)
+    split_rules(ctx, {"KEY", "PURE", "Q1", "CUT", "RESTRIKE", "COUNT", "PLACE", "DEST", "PIECE", "FLOW"}, explain=True)
 
 
 def split_rules(ctx: Ctx, include: set, explain: bool = False) -> None:
@@ -64,6 +65,12 @@ def split_rules(ctx: Ctx, include: set, explain: bool = False) -> None:
         _count(ctx, fi)
     if "PLACE" in include:
         _place(ctx, fi)
+    if "DEST" in include:
+        _dest(ctx, fi)
+    if "PIECE" in include:
+        _piece(ctx, fi)
+    if "FLOW" in include:
+        _flow(ctx, fi)
 
 
 def _place(ctx, fi):
@@ -252,3 +259,295 @@ def _count(ctx, fi):
     rng2 = events_matching(exits2, lambda e: e[0] == "append" and e[1] == result, kinds=("end", "return"))
     ctx.check(rng2 is not None and rng2[1] <= 1, "COUNT", f"{FN}: at most one remainder piece {rng2}", function=FN,
               construct="more than one remainder piece can be appended", message=f"{rng2}", file=fi.file, node=outer)
+
+
+# ------------------------------------------------------------------------------------------------ DEST / PIECE
+def _roles(fi):
+    qs = queue.find_queues(fi.node)
+    result = next((r.value.id for r in walk_local(fi.node) if isinstance(r, ast.Return) and isinstance(r.value, ast.Name)), None)
+    cur = None
+    for c in ast.walk(fi.node):
+        if isinstance(c, ast.Call) and call_method(c)[1] == "append" and isinstance(call_method(c)[0], ast.Name) and call_method(c)[0].id == result \
+                and c.args and isinstance(c.args[0], ast.Name):
+            cur = c.args[0].id
+    loop = next((n for n in ast.walk(fi.node) if isinstance(n, ast.While)), None)
+    popped = None
+    if loop is not None:
+        for s_ in loop.body:
+            if isinstance(s_, ast.Assign) and isinstance(s_.targets[0], ast.Name) and isinstance(s_.value, ast.Call) and call_method(s_.value)[1] == "pop":
+                popped = s_
+    return qs, result, cur, loop, popped
+
+
+def _dest(ctx, fi):
+    """DEST: where each message goes, decided per (kind, capacity left > 0?, wait fits?) by interpreting the body of the
+    work-list loop with those two tests fixed by the case:
+
+        NOTE_ON / other kinds   capacity left      -> current piece (a NOTE_ON is also registered as open)
+                                at the boundary    -> deferred queue (not registered yet)
+        NOTE_OFF                always             -> current piece, its registration removed
+        WAIT that fits          -> current piece, the capacity reduced by its time, the round goes on
+        WAIT that does not fit  -> not placed itself: the head (iff capacity is left) closes the piece, the carried rest is
+                                   queued, the round ends
+
+    and the round keeps consuming events while the capacity is >= 0 (zero-time events at the boundary still belong to
+    the piece)."""
+    from ..linear import Normaliser, Sym, relation, same_relation
+    p = ctx.p
+    qs, result, cur, loop, popped = _roles(fi)
+    if not qs or cur is None or loop is None or popped is None:
+        ctx.undetermined("DEST", f"{FN}: destination of each message", "work-list loop / current piece / queue not recognised: not judged")
+        return
+    m = popped.targets[0].id
+    qn = qs[0]
+    body = [s_ for s_ in loop.body if s_.lineno > popped.lineno]
+    # the capacity variable: the name compared in the while test
+    rem = loop.test.left.id if isinstance(loop.test, ast.Compare) and isinstance(loop.test.left, ast.Name) else None
+    nz = Normaliser()
+    r = relation(loop.test, nz)
+    ctx.check(rem is not None and same_relation(r, Sym.atom(rem), ">="), "DEST", f"{FN}: a round runs while `{rem} >= 0`", function=FN,
+              construct="the round of a piece does not continue while the remaining capacity is >= 0",
+              message=f"`{short(loop.test)}`: with a strict test the zero-time events sitting exactly on the boundary (note-offs ending there) are "
+                      f"pushed into the next piece", file=fi.file, node=loop)
+    if rem is None:
+        return
+    tables = [s.targets[0].id for s in fi.node.body if isinstance(s, ast.Assign) and isinstance(s.targets[0], ast.Name)
+              and ((isinstance(s.value, ast.Call) and isinstance(s.value.func, ast.Name) and s.value.func.id == "dict") or isinstance(s.value, ast.Dict))]
+    opens = tables[0] if len(tables) == 1 else None
+
+    def decide_factory(cap_left, fits):
+        def decide(test, st, tc):
+            if isinstance(test, ast.Compare) and len(test.ops) == 1:
+                rr = relation(test, nz)
+                if rr is not None:
+                    if same_relation(rr, Sym.atom(rem), ">"):
+                        return cap_left
+                    if same_relation(rr, Sym.atom(rem), "<=") or same_relation(rr, Sym.atom(rem), "=="):
+                        return not cap_left
+                    d = Sym.atom(f"{m}.time") - Sym.atom(rem)
+                    if same_relation(rr, d, "<="):
+                        return fits
+                    if same_relation(rr, d, ">"):
+                        return not fits
+            return None
+        return decide
+
+    class _TC(TypeCase):
+        def event_for_call(self, c, st):
+            recv, name = call_method(c)
+            if opens is not None and recv is not None and name == "pop" and isinstance(recv, ast.Name) and recv.id == opens:
+                return ("open-pop",)
+            return super().event_for_call(c, st)
+
+        def stmt(self, s, st):
+            if opens is not None and isinstance(s, ast.Assign) and isinstance(s.targets[0], ast.Subscript) and isinstance(s.targets[0].value, ast.Name) \
+                    and s.targets[0].value.id == opens:
+                st.bump(("open-store", "msg" if self.is_msg(s.value, st) else "other"))
+                return st
+            return super().stmt(s, st)
+
+    Z, ONE = (0, 0), (1, 1)
+    cases = [
+        ("NOTE_ON", True, None, "a note-on while capacity is left", dict(cur_msg=ONE, q_msg=Z, reg=ONE, unreg=Z), {"end"}),
+        ("NOTE_ON", False, None, "a note-on exactly on the boundary", dict(cur_msg=Z, q_msg=ONE, reg=Z, unreg=Z), {"end"}),
+        ("NOTE_OFF", True, None, "a note-off while capacity is left", dict(cur_msg=ONE, q_msg=Z, reg=Z, unreg=ONE), {"end"}),
+        ("NOTE_OFF", False, None, "a note-off exactly on the boundary", dict(cur_msg=ONE, q_msg=Z, reg=Z, unreg=ONE), {"end"}),
+        ("CONTROL_CHANGE", True, None, "another event while capacity is left", dict(cur_msg=ONE, q_msg=Z, reg=Z, unreg=Z), {"end"}),
+        ("CONTROL_CHANGE", False, None, "another event exactly on the boundary", dict(cur_msg=Z, q_msg=ONE, reg=Z, unreg=Z), {"end"}),
+        ("WAIT", True, True, "a wait that fits into the piece", dict(cur_msg=ONE, q_msg=Z, cur_new_wait=Z, q_new_wait=Z, cap_reduced=ONE, reg=Z, unreg=Z), {"end"}),
+        ("WAIT", True, False, "a wait longer than the capacity left (> 0)", dict(cur_msg=Z, q_msg=Z, cur_new_wait=ONE, q_new_wait=ONE, cap_reduced=Z), {"break"}),
+        ("WAIT", False, False, "a wait arriving when no capacity is left", dict(cur_msg=Z, q_msg=Z, cur_new_wait=Z, q_new_wait=ONE, cap_reduced=Z), {"break"}),
+    ]
+    words = {"cur_msg": "times the message itself goes into the current piece", "q_msg": "times the message itself goes onto the deferred queue",
+             "reg": "registrations of the message as an open note", "unreg": "removals of the key from the open-note table",
+             "cur_new_wait": "new WAITs added to the current piece", "q_new_wait": "new WAITs put on the deferred queue",
+             "cap_reduced": "reductions of the remaining capacity by the wait's time"}
+    n = 0
+    for T, cap_left, fits, what, want, want_exits in cases:
+        tc = _TC(p, fi, {m}, T, decide=decide_factory(cap_left, fits))
+        exits = tc.run_body(body)
+
+        def ev(pred):
+            r_ = events_matching(exits, pred, kinds=("end", "continue", "break"))
+            return r_ if r_ is not None else (0, 0)
+        got = {
+            "cur_msg": ev(lambda e: e[0] == "append" and e[1] == cur and e[2] == "msg"),
+            "q_msg": ev(lambda e: e[0] == "append" and e[1] == qn and e[2] == "msg"),
+            "reg": ev(lambda e: e == ("open-store", "msg")),
+            "unreg": ev(lambda e: e == ("open-pop",)),
+            "cur_new_wait": ev(lambda e: e[0] == "append" and e[1] == cur and e[2] == "new:WAIT"),
+            "q_new_wait": ev(lambda e: e[0] == "append" and e[1] == qn and e[2] == "new:WAIT"),
+            "cap_reduced": ev(lambda e: e[0] == "aug" and e[1] == rem and e[2] == "Sub" and e[3] == "msg.time"),
+        }
+        kinds = {k for k, _ in exits}
+        bad = {k: (got[k], v) for k, v in want.items() if got[k] != v}
+        n += 1
+        ctx.check(not bad and kinds == want_exits, "DEST", f"{FN}: {what}: " + ", ".join(f"{k}={got[k]}" for k in want) + f", round {'ends' if 'break' in kinds else 'goes on'}",
+                  function=FN, construct=f"split: {what} is not handled as required ({', '.join(sorted(bad)) or 'round control'})" if (bad or kinds != want_exits) else "ok",
+                  message="; ".join(f"{words[k]}: [min,max]={g}, required {w}" for k, (g, w) in bad.items())
+                          + (f"; the round {sorted(kinds)} where {sorted(want_exits)} is required" if kinds != want_exits else ""),
+                  file=fi.file, node=loop)
+    ctx.floor("destination cases of split decided", n, 9)
+
+
+class _Piece(AbsInt):
+    """May the current piece already have been handed to the result when something is added to it?"""
+
+    def __init__(self, cur: str, result: str):
+        super().__init__()
+        self.cur, self.result = cur, result
+        self.bad: list[ast.AST] = []
+
+    def join(self, a, b):
+        return a or b
+
+    def stmt(self, s, st):
+        for c in ast.walk(s):
+            if isinstance(c, ast.Call):
+                recv, name = call_method(c)
+                if recv is None:
+                    continue
+                rs = src(recv)
+                if rs == self.result and name == "append" and c.args and src(c.args[0]) == self.cur:
+                    if st and c not in self.bad:
+                        self.bad.append(c)          # handed over twice
+                    st = True
+                elif (rs == self.cur or rs.startswith(self.cur + ".")) and name in ("add_message", "append", "extend", "insert", "_add_message_unsorted"):
+                    if st and c not in self.bad:
+                        self.bad.append(c)
+        if isinstance(s, ast.Assign) and any(isinstance(t, ast.Name) and t.id == self.cur for t in s.targets):
+            st = False
+        return st
+
+
+def _piece(ctx, fi):
+    """PIECE: once a piece has been appended to the result nothing more is added to it -- the current piece is rebound to a
+    fresh one first (otherwise consecutive pieces run into each other)."""
+    qs, result, cur, loop, popped = _roles(fi)
+    if cur is None or result is None:
+        ctx.undetermined("PIECE", f"{FN}: hand-over of finished pieces", "current piece / result list not recognised: not judged")
+        return
+    it = _Piece(cur, result)
+    it.run_function(fi.node, False)
+    ctx.check(not it.bad, "PIECE", f"{FN}: nothing is added to a piece after it was appended to the result", function=FN,
+              construct="a piece already handed to the result keeps receiving messages (or is handed over twice)",
+              message=f"`{short(it.bad[0], 80) if it.bad else ''}` can run after `{result}.append({cur})` without `{cur}` having been rebound to a fresh piece",
+              file=fi.file, node=it.bad[0] if it.bad else fi.node)
+    # the fresh piece: created once per capacity, before the round
+    fresh = [s for s in ast.walk(fi.node) if isinstance(s, ast.Assign) and isinstance(s.targets[0], ast.Name) and s.targets[0].id == cur
+             and isinstance(s.value, ast.Name)]
+    for s in fresh:
+        src_var = s.value.id
+        defs = [d for d in ast.walk(fi.node) if isinstance(d, ast.Assign) and isinstance(d.targets[0], ast.Name) and d.targets[0].id == src_var]
+        okf = len(defs) == 1 and isinstance(defs[0].value, ast.Call) and not defs[0].value.args and not defs[0].value.keywords \
+            and isinstance(getattr(defs[0], "_parent", None), ast.For)
+        ctx.check(okf, "PIECE", f"{FN}: `{short(s)}` continues with a piece created empty for this capacity", function=FN,
+                  construct="the next piece is not a fresh empty sequence created per capacity", message=f"{[short(d) for d in defs]}", file=fi.file, node=s)
+
+
+def _nonempty(t: ast.AST, what: str):
+    """True if `t` holds exactly when the list expression `what` is non-empty, False if exactly when it is empty, else None."""
+    neg = False
+    while isinstance(t, ast.UnaryOp) and isinstance(t.op, ast.Not):
+        neg, t = not neg, t.operand
+    res = None
+    if isinstance(t, ast.Compare) and len(t.ops) == 1 and isinstance(t.left, ast.Call) and isinstance(t.left.func, ast.Name) and t.left.func.id == "len" \
+            and t.left.args and src(t.left.args[0]) == what and isinstance(t.comparators[0], ast.Constant):
+        c0, op = t.comparators[0].value, type(t.ops[0])
+        if (op is ast.Gt and c0 == 0) or (op is ast.GtE and c0 == 1) or (op is ast.NotEq and c0 == 0):
+            res = True
+        elif (op is ast.Eq and c0 == 0) or (op is ast.Lt and c0 == 1) or (op is ast.LtE and c0 == 0):
+            res = False
+    elif src(t) == what:
+        res = True
+    if res is None:
+        return None
+    return res != neg
+
+
+def _flow(ctx, fi):
+    """FLOW: the plumbing around the per-message dispatch -- events are taken from the front of the work list while it is
+    non-empty; deferred events are put back at its front; every non-empty piece is handed to the result before the current
+    piece is rebound and once more at the end; what is left of the work list goes into the last piece."""
+    from ..astutil import path_conditions
+    qs, result, cur, loop, popped = _roles(fi)
+    if not qs or cur is None or loop is None or popped is None or result is None:
+        ctx.undetermined("FLOW", f"{FN}: work-list plumbing", "roles not recognised: not judged")
+        return
+    wm = src(call_method(popped.value)[0])
+    qn = qs[0]
+    # (1) front of the list
+    a = popped.value.args
+    ctx.check(len(a) == 1 and isinstance(a[0], ast.Constant) and a[0].value == 0, "FLOW", f"{FN}: the next event is taken from the front (`{short(popped.value)}`)",
+              function=FN, construct="events are not taken from the front of the work list", message=short(popped), file=fi.file, node=popped)
+    # (2) the end-of-input exit precedes the pop and fires iff the list is empty
+    guards = [s_ for s_ in loop.body if isinstance(s_, ast.If) and s_.lineno < popped.lineno and any(isinstance(x, ast.Break) for x in ast.walk(s_))]
+    okg = len(guards) == 1 and _nonempty(guards[0].test, wm) is False and isinstance(guards[0].body[-1], ast.Break) and not guards[0].orelse
+    ctx.check(okg, "FLOW", f"{FN}: the round stops early iff the work list is empty", function=FN,
+              construct="end-of-input exit of a round is missing or does not test `work list empty`",
+              message=f"{[short(g.test) for g in guards]}: with the test inverted every round ends at once and the whole input lands in the last piece",
+              file=fi.file, node=guards[0] if guards else loop)
+    # (3) deferred events go back to the front of the work list
+    spl = [s_ for s_ in ast.walk(fi.node) if isinstance(s_, ast.Assign) and isinstance(s_.targets[0], ast.Subscript) and isinstance(s_.targets[0].slice, ast.Slice)
+           and src(s_.targets[0].value) == wm]
+    okq = False
+    for s_ in spl:
+        sl = s_.targets[0].slice
+        z = lambda e: e is None or (isinstance(e, ast.Constant) and e.value == 0)
+        okq = okq or (z(sl.lower) and isinstance(sl.upper, ast.Constant) and sl.upper.value == 0 and sl.step is None and src(s_.value) == qn)
+    reb = [s_ for s_ in ast.walk(fi.node) if isinstance(s_, ast.Assign) and src(s_.targets[0]) == wm and isinstance(s_.value, ast.BinOp)
+           and isinstance(s_.value.op, ast.Add) and src(s_.value.left) == qn and src(s_.value.right) == wm]
+    ctx.check(okq or bool(reb), "FLOW", f"{FN}: deferred events are re-inserted at the front of the work list", function=FN,
+              construct="deferred events are not put back at the very front of the work list (or replace part of it)",
+              message=f"{[short(s_) for s_ in spl + reb]}: `{wm}[0:0] = {qn}` is the only slice that inserts without replacing", file=fi.file,
+              node=spl[0] if spl else loop)
+    # (4) hand-over sites
+    hand = [c for c in ast.walk(fi.node) if isinstance(c, ast.Call) and call_method(c)[1] == "append" and src(call_method(c)[0]) == result
+            and c.args and src(c.args[0]) == cur]
+    cur_list = None
+    for c in hand:
+        conds = path_conditions(c)
+        inner = conds[0] if conds else None
+        lst = None
+        if inner is not None:
+            t = inner[0]
+            while isinstance(t, ast.UnaryOp):
+                t = t.operand
+            if isinstance(t, ast.Compare) and isinstance(t.left, ast.Call) and t.left.args:
+                lst = src(t.left.args[0])
+            elif isinstance(t, (ast.Attribute, ast.Name)):
+                lst = src(t)
+        okh = inner is not None and inner[1] and lst is not None and lst.startswith(cur) and _nonempty(inner[0], lst) is True
+        cur_list = cur_list or lst
+        ctx.check(okh, "FLOW", f"{FN}: line {c.lineno}: the piece is handed over iff it holds something", function=FN,
+                  construct="a finished piece is handed to the result under a test other than `the piece is non-empty`",
+                  message=f"{short(inner[0]) if inner else 'unguarded'}: empty pieces would be emitted or filled ones lost", file=fi.file, node=c)
+    rebinds = [s_ for s_ in ast.walk(loop) if isinstance(s_, ast.Assign) and isinstance(s_.targets[0], ast.Name) and s_.targets[0].id == cur]
+    for rb in rebinds:
+        blk = next((getattr(rb._parent, f) for f in ("body", "orelse") if rb in getattr(rb._parent, f, [])), [])
+        before = blk[:blk.index(rb)] if rb in blk else []
+        covered = any(h in list(ast.walk(s_)) for s_ in before for h in hand)
+        ctx.check(covered, "FLOW", f"{FN}: line {rb.lineno}: the old piece is handed over before `{short(rb)}`", function=FN,
+                  construct="the current piece is replaced without having been handed to the result",
+                  message="the messages collected for this capacity are lost", file=fi.file, node=rb)
+    outer_for = next((a_ for a_ in ancestors(loop) if isinstance(a_, ast.For)), None)
+    final = [h for h in hand if outer_for is not None and outer_for not in list(ancestors(h))]
+    ctx.check(len(final) == 1, "FLOW", f"{FN}: the last piece is handed over after all capacities are used", function=FN,
+              construct="the piece still being filled when the capacities run out is not handed to the result",
+              message=f"{len(final)} hand-over(s) after the capacity loop", file=fi.file, node=fi.node)
+    ctx.floor("hand-over sites of split", len(hand), 3)
+    # (5) the unread rest of the input goes into the last piece, before it is handed over
+    ext = [c for c in ast.walk(fi.node) if isinstance(c, ast.Call) and call_method(c)[1] in ("extend",) and src(call_method(c)[0]).startswith(cur)
+           and outer_for is not None and outer_for not in list(ancestors(c)) and any(isinstance(x, ast.Name) and x.id == wm for x in ast.walk(c))]
+    okr = False
+    if len(ext) == 1:
+        conds = path_conditions(ext[0])
+        okr = (not conds or (len(conds) == 1 and conds[0][1] and _nonempty(conds[0][0], wm) is True)) and bool(final) and ext[0].lineno < final[0].lineno
+        arg = ext[0].args[0]
+        if isinstance(arg, ast.ListComp):
+            okr = okr and not arg.generators[0].ifs and src(arg.generators[0].iter) == wm and src(arg.elt) == src(arg.generators[0].target)
+        else:
+            okr = okr and src(arg) == wm
+    ctx.check(okr, "FLOW", f"{FN}: what is left of the input after the last capacity goes into the last piece", function=FN,
+              construct="the unread rest of the input is not appended (whole, unfiltered) to the last piece",
+              message=f"{[short(c, 80) for c in ext]}", file=fi.file, node=ext[0] if ext else fi.node)
